@@ -613,7 +613,19 @@ func hasNumericDefault(t schema.Type) bool {
 	return false
 }
 
-func isHex(x string) bool { return len(x) > 2 && strings.ToLower(x[:2]) == "0x" }
+func isHex(x string) bool {
+	if len(x) <= 2 || strings.ToLower(x[:2]) != "0x" {
+		return false
+	}
+	// A hexadecimal literal holds hexadecimal digits only. Any
+	// other text that starts with "0x" is a string like any other.
+	for _, r := range x[2:] {
+		if !strings.ContainsRune("0123456789abcdefABCDEF", r) {
+			return false
+		}
+	}
+	return true
+}
 
 // marDefaultExpr returns the correct schema.Expr based on the column attributes for MariaDB.
 func (i *inspect) marDefaultExpr(c *schema.Column, x string) schema.Expr {
